@@ -462,7 +462,7 @@ func GenRoot(t *rapid.T, cfg TreeCfg) V {
 
 // GenChain draws a deep, narrow tree (depth up to maxDepth) ending in a leaf.
 func GenChain(t *rapid.T, cfg TreeCfg, maxDepth int) V {
-	d := drawInt(t, 2, maxDepth, "chain")
+	d := 2 + unbiasedN(t, maxDepth-1, "chain")
 	v := GenLeaf(t, cfg)
 	for i := 0; i < d; i++ {
 		if drawBool(t, "cl") {
